@@ -387,6 +387,8 @@ class Machine:
                     rec(i + 1)
         rec(0)
         self.env = saved
+        if isinstance(e, ast.SetComp) and all(not isinstance(x, (list, dict)) for x in out):
+            return frozenset(out)
         return dict(out) if isinstance(e, ast.DictComp) else out
 
     def iterate(self, v, node):
@@ -435,7 +437,7 @@ class Machine:
             return r if isinstance(op, ast.Eq) else not r
         if isinstance(a, (int, float)) and isinstance(b, (int, float)) and not isinstance(a, bool) and not isinstance(b, bool):
             return {ast.Lt: a < b, ast.LtE: a <= b, ast.Gt: a > b, ast.GtE: a >= b}[type(op)]
-        if isinstance(op, (ast.In, ast.NotIn)) and isinstance(b, (dict, tuple, list)) and not isinstance(a, (Opaque, Mono)):
+        if isinstance(op, (ast.In, ast.NotIn)) and isinstance(b, (dict, tuple, list, set, frozenset)) and not isinstance(a, (Opaque, Mono)):
             r = a in b
             return r if isinstance(op, ast.In) else not r
         raise Undecidable(f"`{ast.unparse(node)[:80]}` on {a!r}, {b!r}")
@@ -684,6 +686,19 @@ class Machine:
             if isinstance(v, list):
                 v.append(args[0]) if short == "append" else v.extend(args[0])
                 return None
+        if short == "add" and isinstance(e.func, ast.Attribute) and isinstance(e.func.value, ast.Name) and len(args) == 1 \
+                and isinstance(self.env.get(e.func.value.id), frozenset) and not isinstance(args[0], (list, dict)):
+            self.env[e.func.value.id] = self.env[e.func.value.id] | {args[0]}        # a set of the program: rebound, the model's sets are immutable
+            return None
+        if name == "len" and args and isinstance(args[0], (set, frozenset)):
+            return len(args[0])
+        if name == "next" and args and isinstance(args[0], list) and isinstance(e.args[0], ast.GeneratorExp):
+            # next(<generator expression>, default): its first item (the model evaluates generator expressions eagerly)
+            if args[0]:
+                return args[0][0]
+            if len(args) > 1:
+                return args[1]
+            raise Raised("StopIteration")
         if name == "next" and args and isinstance(args[0], (GenValue, list, tuple)):
             # the first item only: a generator of the model is advanced no further (its later checks are not evaluated)
             if isinstance(args[0], GenValue):
